@@ -22,8 +22,8 @@ Payloads == { <<"LT", "b", "GT">>, <<"AMP", "APOS", "QUOT", "PLAIN">>, <<"AMP", 
               <<"x", "APOS", "y">>, <<"QUOT", "z">>, <<"a", "GT">>, <<"AMP">> }
 
 Starts == {"lit", "bqlit", "ctxstr", "ctxhtml", "htmler", "rawlit", "rawctx", "field", "htmlfield", "mapel", "strsel", "anyel", "helper", "strs", "anys",
-           "strsloop", "htmlsloop", "anysloop", "maploop"}
-Trusted(s) == s \in {"ctxhtml", "htmler", "rawlit", "rawctx", "htmlfield", "htmlsloop"}
+           "strsloop", "htmlsloop", "anysloop", "maploop", "htmlerstringer"}
+Trusted(s) == s \in {"ctxhtml", "htmler", "rawlit", "rawctx", "htmlfield", "htmlsloop", "htmlerstringer"}
 \* starts where the payload is the loop variable of a for over a typed Go collection of the context:
 \* the whole route (steps and sink) then sits in that loop's body
 LoopOver(s) == CASE s = "strsloop" -> "xs" [] s = "htmlsloop" -> "hs" [] s = "anysloop" -> "ys" [] s = "maploop" -> "m" [] OTHER -> ""
@@ -34,6 +34,7 @@ StartExpr(s, P) ==
     [] s = "ctxstr"  -> Id("s")
     [] s = "ctxhtml" -> Id("h")
     [] s = "htmler"  -> Id("hr")
+    [] s = "htmlerstringer" -> Id("hrs")              \* a value that is an HTMLer AND a fmt.Stringer (with other text)
     [] s = "rawlit"  -> Call("raw", <<Str(P)>>)
     [] s = "rawctx"  -> Call("raw", <<Id("s")>>)
     [] s = "field"   -> Dot(Id("u"), "Name")
@@ -46,10 +47,13 @@ StartExpr(s, P) ==
     [] s = "anys"    -> Id("ys")
     [] OTHER         -> Id("w")                        \* the loop variable (LoopOver)
 
-DataFor(P) == [s |-> S(P), h |-> H(P), h2 |-> H(<<"LT", "i", "GT">>), hr |-> HTMLer(P), u |-> Rec([Name |-> S(P), Html |-> H(P)]),
+DataFor(P) == [s |-> S(P), h |-> H(P), h2 |-> H(<<"LT", "i", "GT">>), hr |-> HTMLer(P), hrs |-> [t |-> "html", s |-> P, go |-> "htmlerstringer"],
+               hs2 |-> AT(<<H(<<"o", "l", "d">>)>>, "htmls"), hm |-> [t |-> "map", m |-> [k |-> H(<<"o", "l", "d">>)], go |-> "htmlmap"], u |-> Rec([Name |-> S(P), Html |-> H(P)]),
                m |-> M([k |-> S(P)]), xs |-> AT(<<S(P)>>, "strs"), ys |-> A(<<S(P)>>), hs |-> AT(<<H(P)>>, "htmls")]
 
-Steps == {"let", "catL", "catR", "catRawR", "catRawL", "catHtmlR", "arridx", "arrall", "hashidx", "fnid", "fnemit", "goid", "par"}
+\* sethtmls / sethtmlmap: the carrier is assigned into an element of a Go []template.HTML / map[string]template.HTML
+\* and read back from there (string data must not become trusted on the way: an error or escaped output)
+Steps == {"let", "catL", "catR", "catRawR", "catRawL", "catHtmlR", "arridx", "arrall", "hashidx", "fnid", "fnemit", "goid", "par", "sethtmls", "sethtmlmap"}
 \* a step turns carrier expression e into [pre: statements to put before, e: the new carrier]
 ApplyStep(st, i, e) ==
   LET vn == "v" \o Digit(i)  fn == "f" \o Digit(i) IN
@@ -66,6 +70,8 @@ ApplyStep(st, i, e) ==
     [] st = "fnemit"  -> [pre |-> <<Let(fn, FnLit(<<"q">>, <<Text(<<"{">>), Emit(Id("q")), Text(<<"}">>)>>))>>, e |-> Call(fn, <<e>>)]
     [] st = "goid"    -> [pre |-> <<>>, e |-> Call("id", <<e>>)]
     [] st = "par"     -> [pre |-> <<>>, e |-> Par(e)]
+    [] st = "sethtmls" -> [pre |-> <<Code(IdxAssign(Id("hs2"), IntL(0), e))>>, e |-> Idx(Id("hs2"), IntL(0))]
+    [] st = "sethtmlmap" -> [pre |-> <<Code(IdxAssign(Id("hm"), Str(<<"k">>), e))>>, e |-> Idx(Id("hm"), Str(<<"k">>))]
 
 Sinks == {"top", "for", "if", "else", "fn", "blk", "blkown", "cfor", "cofdata", "cofdefault", "partial", "nested", "layout", "forfn",
           "blk0", "blkown0", "cfor0", "cofdata0", "cofdefault0", "fn0", "partial0"}
